@@ -895,6 +895,9 @@ func c09(c *core.Ctx) {
 		}
 	}
 
+	rOw := c.Rule("C09.idowner", "a guard ID received together with its record is used only on that record (shared with C15.idowner): a release or a guarded write on another record with the caller's ID breaks the exclusion of both records", 5)
+	guardOwnerRule(c, rOw)
+
 	rT := c.Rule("C09.toctou", "read-modify-write entry points (Increment*, PatchFields, PatchExpired per record) read the content type only after acquiring the guard; CreateTreasure does its lookups and the registration of the in-flight record while holding createMu", 12)
 	for _, f := range p.FuncsIn(pkgSwamp) {
 		if f.Decl.Body == nil {
